@@ -1,9 +1,10 @@
 import P2PVerif.Model.Mux
 import P2PVerif.Lemmas.Varint
+import P2PVerif.Lemmas.SrcMux
 /-! # C15 — multiplexed channels are isolated and framing is unambiguous
 Property theorems only; helper lemmas live in `Lemmas/`. -/
 namespace P2PVerif.C15
-open P2PVerif P2PVerif.Mux
+open P2PVerif P2PVerif.Mux P2PVerif.Src P2PVerif.Go P2PVerif.SrcMux P2PVerif.SrcKad
 
 /-- ⊢ `binary.Uvarint` inverts `binary.PutUvarint` for every 64-bit value, whatever follows. -/
 theorem uvarint_roundtrip (x : Nat) (hx : x < 2 ^ 64) (rest : Bytes) :
@@ -67,5 +68,137 @@ example : (Chan.s []).WF .str ∧ (Chan.n (2^64-1)).WF .varint ∧ (Chan.n 65535
   simp [Chan.WF]
 example : dispatch .str [.s [1,2], .s []] (mux .str (.s []) [9]) = some (.s [], [9]) := by
   rw [dispatch_isolated _ _ _ _ (by simp [Chan.WF])]; simp
+
+/-! ### the same, about the definitions regenerated from the Go source (`Gen/Src.lean`) -/
+
+/-- ⊢ (source) `uint16DemuxFunc` undoes `uint16MuxFunc` on the concatenated frame: every channel, every payload
+    vector; neither faults. -/
+theorem src_u16_roundtrip (c : UInt16) (x : List Go.Bytes) :
+    (p2pmux.uint16MuxFunc c x >>= fun v => p2pmux.uint16DemuxFunc v.flatten) = .ok (c, x.flatten, none) := by
+  rw [u16Mux_eq]
+  simp only [bind_ok, hdr16, List.flatten_cons, List.cons_append, List.nil_append, u16Demux_ok, byteOf_toNat]
+  congr 2
+  have := c.toNat_lt
+  have e : c.toNat / 256 % 256 * 256 + c.toNat % 256 = c.toNat := by omega
+  rw [e]; simp
+
+theorem src_u32_roundtrip (c : UInt32) (x : List Go.Bytes) :
+    (p2pmux.uint32MuxFunc c x >>= fun v => p2pmux.uint32DemuxFunc v.flatten) = .ok (c, x.flatten, none) := by
+  rw [u32Mux_eq]
+  simp only [bind_ok, hdr32, List.flatten_cons, List.cons_append, List.nil_append, u32Demux_ok, byteOf_toNat]
+  congr 2
+  have := c.toNat_lt
+  have e : ((c.toNat / 16777216 % 256 * 256 + c.toNat / 65536 % 256) * 256 + c.toNat / 256 % 256) * 256 + c.toNat % 256 = c.toNat := by omega
+  rw [e]; simp
+
+theorem src_u64_roundtrip (c : UInt64) (x : List Go.Bytes) :
+    (p2pmux.uint64MuxFunc c x >>= fun v => p2pmux.uint64DemuxFunc v.flatten) = .ok (c, x.flatten, none) := by
+  rw [u64Mux_eq]
+  simp only [bind_ok, hdr64, List.flatten_cons, List.cons_append, List.nil_append, u64Demux_ok, byteOf_toNat]
+  congr 2
+  have := c.toNat_lt
+  have e : ((((((c.toNat / 72057594037927936 % 256 * 256 + c.toNat / 281474976710656 % 256) * 256 + c.toNat / 1099511627776 % 256) * 256
+      + c.toNat / 4294967296 % 256) * 256 + c.toNat / 16777216 % 256) * 256 + c.toNat / 65536 % 256) * 256 + c.toNat / 256 % 256) * 256
+      + c.toNat % 256 = c.toNat := by omega
+  rw [e]; simp
+
+theorem src_varint_roundtrip (c : UInt64) (x : List Go.Bytes) :
+    (p2pmux.varintMuxFunc c x >>= fun v => p2pmux.varintDemuxFunc v.flatten) = .ok (c, x.flatten, none) := by
+  rw [varintMux_eq]
+  simp only [bind_ok, List.flatten_cons, varintDemux_model]
+  have : nb (Go.uvarintBytes c ++ x.flatten) = Varint.put c.toNat ++ nb x.flatten := by
+    simp only [nb, List.map_append]
+    have := nb_uvarintBytes c
+    simp only [nb] at this
+    rw [this]
+  rw [this, Varint.get_put _ c.toNat_lt]
+  simp only
+  congr 2
+  · simp
+  · have : (Varint.put c.toNat).length = (Go.uvarintBytes c).length := by simp [Go.uvarintBytes]
+    rw [this]; simp
+
+theorem src_string_roundtrip (c : Go.Bytes) (x : List Go.Bytes) (hlen : c.length + 10 + x.flatten.length < 2 ^ 63) :
+    (p2pmux.stringMuxFunc c x >>= fun v => p2pmux.stringDemuxFunc v.flatten) = .ok (c, x.flatten, none) := by
+  have hc : c.length < 2 ^ 64 := by omega
+  rw [stringMux_eq c x hc]
+  have hl := uvarintBytes_len (UInt64.ofNat c.length)
+  have hu : (UInt64.ofNat c.length).toNat = c.length := u64_ofNat_toNat _ hc
+  simp only [bind_ok, List.flatten_cons]
+  rw [stringDemux_model _ (by rw [List.length_append, List.length_append]; omega)]
+  have : nb ((Go.uvarintBytes (UInt64.ofNat c.length) ++ c) ++ x.flatten)
+      = Varint.put c.length ++ nb (c ++ x.flatten) := by
+    simp only [nb, List.map_append, List.append_assoc]
+    have := nb_uvarintBytes (UInt64.ofNat c.length)
+    simp only [nb, hu] at this
+    rw [this]
+  rw [this, Varint.get_put _ hc]
+  have e : (Varint.put c.length).length = (Go.uvarintBytes (UInt64.ofNat c.length)).length := by
+    simp [Go.uvarintBytes, hu]
+  simp only [e, List.append_assoc, List.drop_left', List.length_append]
+  have : ¬ (c.length + x.flatten.length < c.length) := by omega
+  simp [this]
+
+/-- ⊢ (source) two different (channel, payload) pairs never produce the same frame bytes: 16-bit channels. The other
+    kinds follow from their round-trip theorems in the same way. -/
+theorem src_u16_injective (c c' : UInt16) (x x' : List Go.Bytes) (v v' : List Go.Bytes)
+    (h : p2pmux.uint16MuxFunc c x = .ok v) (h' : p2pmux.uint16MuxFunc c' x' = .ok v') (e : v.flatten = v'.flatten) :
+    c = c' ∧ x.flatten = x'.flatten := by
+  have r := src_u16_roundtrip c x
+  have r' := src_u16_roundtrip c' x'
+  rw [h] at r; rw [h'] at r'
+  simp only [bind_ok] at r r'
+  rw [e, r'] at r
+  injection r with r
+  injection r with r1 r2
+  injection r2 with r2 _
+  exact ⟨r1.symm, r2.symm⟩
+
+theorem src_string_injective (c c' : Go.Bytes) (x x' : List Go.Bytes) (v v' : List Go.Bytes)
+    (hl : c.length + 10 + x.flatten.length < 2 ^ 63) (hl' : c'.length + 10 + x'.flatten.length < 2 ^ 63)
+    (h : p2pmux.stringMuxFunc c x = .ok v) (h' : p2pmux.stringMuxFunc c' x' = .ok v') (e : v.flatten = v'.flatten) :
+    c = c' ∧ x.flatten = x'.flatten := by
+  have r := src_string_roundtrip c x hl
+  have r' := src_string_roundtrip c' x' hl'
+  rw [h] at r; rw [h'] at r'
+  simp only [bind_ok] at r r'
+  rw [e, r'] at r
+  injection r with r
+  injection r with r1 r2
+  injection r2 with r2 _
+  exact ⟨r1.symm, r2.symm⟩
+
+/-- ⊢ (source) the regenerated mux functions produce exactly the model's frames, so everything proved about
+    `Mux.mux`/`Mux.demux` above speaks about the code as it is now. -/
+theorem src_mux_is_model_u16 (c : UInt16) (x : List Go.Bytes) :
+    ∃ v, p2pmux.uint16MuxFunc c x = .ok v ∧ nb v.flatten = mux .u16 (.n c.toNat) (nb x.flatten) :=
+  ⟨_, u16Mux_eq c x, by
+    have := nb_hdr16 c
+    simp only [nb] at this
+    simp [mux, header, nb, this]⟩
+theorem src_mux_is_model_u32 (c : UInt32) (x : List Go.Bytes) :
+    ∃ v, p2pmux.uint32MuxFunc c x = .ok v ∧ nb v.flatten = mux .u32 (.n c.toNat) (nb x.flatten) :=
+  ⟨_, u32Mux_eq c x, by
+    have := nb_hdr32 c
+    simp only [nb] at this
+    simp [mux, header, nb, this]⟩
+theorem src_mux_is_model_u64 (c : UInt64) (x : List Go.Bytes) :
+    ∃ v, p2pmux.uint64MuxFunc c x = .ok v ∧ nb v.flatten = mux .u64 (.n c.toNat) (nb x.flatten) :=
+  ⟨_, u64Mux_eq c x, by
+    have := nb_hdr64 c
+    simp only [nb] at this
+    simp [mux, header, nb, this]⟩
+theorem src_mux_is_model_varint (c : UInt64) (x : List Go.Bytes) :
+    ∃ v, p2pmux.varintMuxFunc c x = .ok v ∧ nb v.flatten = mux .varint (.n c.toNat) (nb x.flatten) :=
+  ⟨_, varintMux_eq c x, by
+    have := nb_uvarintBytes c
+    simp only [nb] at this
+    simp [mux, header, nb, this]⟩
+
+-- non-vacuity: the regenerated functions run (this is `#eval`-level evidence inside the kernel)
+example : p2pmux.uint16MuxFunc 513 [[7, 8], [9]] = .ok [[2, 1], [7, 8], [9]] := by
+  rw [u16Mux_eq]; rfl
+example : p2pmux.uint16DemuxFunc [2, 1, 7, 8, 9] = .ok (513, [7, 8, 9], none) := by
+  rw [u16Demux_ok]; rfl
 
 end P2PVerif.C15
